@@ -119,7 +119,7 @@ def apply_final(case, base_rel, b, engines, opt):
     kw = opt_kwargs(opt, engines)
     if f["kind"] == "join":
         fixed = b.build(f["fixed"])
-        p = exprs.plib(f["pred"]) if f["pred"] is not None else None
+        p = b.plib(f["pred"]) if f["pred"] is not None else None
         # public route only: Relation.join(rhs, predicate, backtrack=, transfer=); the preferred
         # engine of a join is always the fixed operand's engine
         if opt is None:
@@ -128,15 +128,15 @@ def apply_final(case, base_rel, b, engines, opt):
     node = f["node"]
     k = f["kind"]
     if k == "calc":
-        return base_rel.with_calculated_column(T(node[2]), exprs.elib(node[3]), **kw)
+        return base_rel.with_calculated_column(T(node[2]), b.elib(node[3]), **kw)
     if k == "proj":
         return base_rel.with_only_columns({T(c) for c in node[2]}, **kw)
     if k == "sel":
-        return base_rel.with_rows_satisfying(exprs.plib(node[2]), **kw)
+        return base_rel.with_rows_satisfying(b.plib(node[2]), **kw)
     if k == "dedup":
         return base_rel.without_duplicates(**kw)
     if k == "sort":
-        return base_rel.sorted([R.SortTerm(exprs.elib(e), asc) for e, asc in node[2]], **kw)
+        return base_rel.sorted([R.SortTerm(b.elib(e), asc) for e, asc in node[2]], **kw)
     if k == "slice":
         return R.Slice(node[2], node[3]).apply(base_rel, **kw)
     raise AssertionError(k)
@@ -313,6 +313,9 @@ def run_case(case):
                 if str(base) != base_str:
                     out["violations"].append({"kind": "base_tree_changed", "detail": req})
         base = original_base
+        for bad in b.sweep_expressions()[:2]:
+            out["violations"].append({"kind": "expression_required_columns_corrupted_by_requests", "detail": f"{label}: {bad}"})
+        c["expression_objects_swept"] = len(b.expr_cache)
         for k, v in mcm.COUNTERS.items():
             c[k] = c.get(k, 0) + v
         if out["sigs"]:
